@@ -22,13 +22,15 @@
 (***************************************************************************)
 EXTENDS Dispatch, C07Base
 
-CONSTANTS NProms,       \* set of numbers of Prometheus servers (subset of 1..2)
-          LayoutIds,    \* subset of 1..3
-          Rules,        \* subset of DOMAIN FileRules: rules comments are written on
-          Scopes,       \* subset of {"rule", "file"}
-          OnlyBasePairs,\* BOOLEAN: rule comments only for (rule, check) pairs with a problem in the base report (C07Base)
-          AllPlacements,\* BOOLEAN: every trailing / between position, or one of each
-          Slim          \* BOOLEAN: only `disable <check name>` written above the rule / on top of the file
+CONSTANTS NProms,        \* set of numbers of Prometheus servers (subset of 1..2)
+          LayoutIds,     \* subset of 1..4
+          Eols,          \* subset of {"lf", "crlf"}: line endings of the rule file
+          Rules,         \* subset of DOMAIN FileRules: rules comments are written on
+          Scopes,        \* subset of {"rule", "file"}
+          Priors,        \* subset of {"none", "expired"}: an expired snooze for the same check already in front
+          OnlyBasePairs, \* BOOLEAN: rule comments only for (rule, check) pairs with a problem in the base report (C07Base)
+          AllPlacements, \* BOOLEAN: every trailing / between position, or one of each
+          Slim           \* BOOLEAN: only `disable <check name>` written above the rule / on top of the file
 
 -----------------------------------------------------------------------------
 (* The rule file of the harness (text in harness/cmd/vh/exec_c07.go; EXEC   *)
@@ -58,6 +60,8 @@ Layout(n) ==
   CASE n = 1 -> <<Blk(KindsA \o KindsB, FALSE)>>                       \* everything in one unlocked block
     [] n = 2 -> <<Blk(KindsA, FALSE), Blk(KindsB, TRUE)>>              \* second block locked
     [] n = 3 -> <<Blk(KindsA, TRUE), Blk(KindsB, FALSE)>>              \* first block locked
+    [] n = 4 -> <<Blk(KindsA \o KindsB, FALSE),                        \* plus a block that enables every check by name:
+                  [Blk(<<>>, FALSE) EXCEPT !.enable = CheckNames]>>    \* "won't enable checks disabled ... via # pint disable comments"
 
 -----------------------------------------------------------------------------
 (* Comment vocabulary.                                                      *)
@@ -99,47 +103,51 @@ DocSuppresses(c, pr) ==
 
 -----------------------------------------------------------------------------
 VARIABLES phase,   \* "scen" | "comment" | "place" | "eval"
-          cfg, layout, rule, cmt, place, target
-vars == <<phase, cfg, layout, rule, cmt, place, target>>
+          cfg, layout, eol,
+          insts,   \* every check instance pint creates for a rule under cfg (computed once per scenario)
+          rule, cmt, prior, place, target
+vars == <<phase, cfg, layout, eol, insts, rule, cmt, prior, place, target>>
 
 Cfg0 == [proms |-> <<>>, blocks |-> <<>>, enabled |-> <<>>, disabled |-> <<>>]
 NoCmt == [scope |-> "none", type |-> "none", when |-> "none", tfmt |-> "rfc", match |-> ""]
 NoPlace == [at |-> "none", line |-> 0]
-Init == phase = "scen" /\ cfg = Cfg0 /\ layout = 0 /\ rule = 0 /\ cmt = NoCmt /\ place = NoPlace /\ target = ""
+Init == /\ phase = "scen" /\ cfg = Cfg0 /\ layout = 0 /\ eol = "lf" /\ insts = {} /\ rule = 0 /\ cmt = NoCmt
+        /\ prior = "none" /\ place = NoPlace /\ target = ""
 
-ChooseScenario(np, n) ==
+InstancesOf(c) == Range(GetChecksForEntry(Load(c), PlainEntry("rule", "noop"), "lint"))
+
+ChooseScenario(np, n, el) ==
   /\ phase = "scen"
-  /\ cfg' = [Cfg0 EXCEPT !.proms = SubSeq(PromPool, 1, np), !.blocks = Layout(n)]
-  /\ layout' = n /\ phase' = "comment"
-  /\ UNCHANGED <<rule, cmt, place, target>>
-
-\* every check instance pint creates for a rule under this configuration
-Instances == Range(GetChecksForEntry(Load(cfg), PlainEntry("rule", "noop"), "lint"))
+  /\ LET c == [Cfg0 EXCEPT !.proms = SubSeq(PromPool, 1, np), !.blocks = Layout(n)] IN
+     cfg' = c /\ insts' = InstancesOf(c)
+  /\ layout' = n /\ eol' = el /\ phase' = "comment"
+  /\ UNCHANGED <<rule, cmt, prior, place, target>>
 
 \* (rule, instance) pairs a rule comment is generated for
 Pairs == IF OnlyBasePairs
-         THEN {p \in Rules \X Instances : <<p[1], p[2].str>> \in BasePairsOf(Len(cfg.proms), layout)}
-         ELSE Rules \X Instances
+         THEN {p \in Rules \X insts : <<p[1], p[2].str>> \in BasePairsOf(Len(cfg.proms), layout)}
+         ELSE Rules \X insts
 \* instances a file comment is generated for
 FileTargets == IF OnlyBasePairs
-               THEN {pr \in Instances : \E r \in DOMAIN FileRules : <<r, pr.str>> \in BasePairsOf(Len(cfg.proms), layout)}
-               ELSE Instances
+               THEN {pr \in insts : \E r \in DOMAIN FileRules : <<r, pr.str>> \in BasePairsOf(Len(cfg.proms), layout)}
+               ELSE insts
 
 \* the documentation is silent on file/disable for checks of a locked block: such combinations are not generated
-ChooseComment(sc, tm, r, pr, m) ==
+ChooseComment(sc, tm, r, pr, m, pri) ==
   /\ phase = "comment"
-  /\ ~\E q \in Instances : m \in AmbiguousSpellings(q)
-  /\ (Slim => tm.type = "disable" /\ m = pr.rep)
-  /\ IF sc = "file" THEN r = 0 /\ pr \in FileTargets /\ ~\E q \in Instances : q.locked /\ m \in DocSpellings(q)
+  /\ ~\E q \in insts : m \in AmbiguousSpellings(q)
+  /\ (Slim => tm.type = "disable" /\ m = pr.rep /\ pri = "none")
+  /\ IF sc = "file" THEN r = 0 /\ pr \in FileTargets /\ ~\E q \in insts : q.locked /\ m \in DocSpellings(q)
                     ELSE <<r, pr>> \in Pairs
   /\ cmt' = [scope |-> sc, type |-> tm.type, when |-> tm.when, tfmt |-> tm.tfmt, match |-> m]
-  /\ target' = pr.str /\ rule' = r
+  /\ target' = pr.str /\ rule' = r /\ prior' = pri
   /\ phase' = "place"
-  /\ UNCHANGED <<cfg, layout, place>>
+  /\ UNCHANGED <<cfg, layout, eol, insts, place>>
 
 TrailLines(r)   == IF AllPlacements THEN FileRules[r].first..FileRules[r].last ELSE {FileRules[r].first, FileRules[r].last}
 BetweenLines(r) == IF AllPlacements THEN FileRules[r].fields ELSE {CHOOSE x \in FileRules[r].fields : \A y \in FileRules[r].fields : x <= y}
 
+\* place.line is in the numbering of the committed file (FileRules)
 ChoosePlace(p) ==
   /\ phase = "place"
   /\ (Slim => p.at \in {"above", "top"})
@@ -148,54 +156,75 @@ ChoosePlace(p) ==
           \/ \E x \in BetweenLines(rule) : p = [at |-> "between", line |-> x]
           \/ \E x \in TrailLines(rule) : p = [at |-> "trail", line |-> x]
   /\ place' = p /\ phase' = "eval"
-  /\ UNCHANGED <<cfg, layout, cmt, target, rule>>
+  /\ UNCHANGED <<cfg, layout, eol, insts, cmt, prior, target, rule>>
 
 PlaceSet == {[at |-> a, line |-> x] : a \in {"above", "between", "trail", "top", "bottom"}, x \in 1..(FileLines + 1)}
 
 Next ==
-  \/ \E np \in NProms, n \in LayoutIds : ChooseScenario(np, n)
-  \/ \E sc \in Scopes, tm \in Timing, r \in Rules \cup {0}, pr \in Instances :
-        \E m \in DocSpellings(pr) \cup NegativeSpellings(pr) : ChooseComment(sc, tm, r, pr, m)
+  \/ \E np \in NProms, n \in LayoutIds, el \in Eols : ChooseScenario(np, n, el)
+  \/ \E sc \in Scopes, tm \in Timing, r \in Rules \cup {0}, pr \in insts, pri \in Priors :
+        \E m \in DocSpellings(pr) \cup NegativeSpellings(pr) : ChooseComment(sc, tm, r, pr, m, pri)
   \/ \E p \in PlaceSet : ChoosePlace(p)
 Spec == Init /\ [][Next]_vars
 
 -----------------------------------------------------------------------------
-(* Impl: what the comment becomes for the entries of the file.              *)
-\* parser.parseRule keeps disable / snooze comments attached to the rule; discovery.readRules turns
-\* file/disable and unexpired file/snooze comments into Entry.DisabledChecks of every rule of the file
-EntryWith(c, targeted) ==
-  LET e == PlainEntry("rule", "noop") IN
-  IF c.scope = "file"
-  THEN [e EXCEPT !.fileDisabled = IF c.type = "disable" \/ c.when = "future" THEN <<c.match>> ELSE <<>>]
-  ELSE IF targeted
-  THEN [e EXCEPT !.comments = <<[type |-> c.type, match |-> c.match, future |-> (c.when = "future")]>>]
-  ELSE e
+(* Impl: what the comments become for the entries of the file.              *)
+\* the expired snooze that is already in the file in front of the new comment (same scope, same check)
+PriorCmt(c) == [c EXCEPT !.type = "snooze", !.when = "past", !.tfmt = "rfc"]
+CmtSeq(c, pri) == IF pri = "expired" THEN <<PriorCmt(c), c>> ELSE <<c>>
 
-ImplChecksWith(c, targeted) == GetChecksForEntry(Load(cfg), EntryWith(c, targeted), "lint")
+\* parser.parseRule keeps disable / snooze comments attached to the rule, in file order; discovery.readRules turns
+\* file/disable and unexpired file/snooze comments into Entry.DisabledChecks of every rule of the file
+EntryWithSeq(cs, targeted) ==
+  LET e == PlainEntry("rule", "noop")
+      live == SelectSeq(cs, LAMBDA c : c.type = "disable" \/ c.when = "future") IN
+  IF Len(cs) > 0 /\ cs[1].scope = "file"
+  THEN [e EXCEPT !.fileDisabled = [i \in DOMAIN live |-> live[i].match]]
+  ELSE IF targeted
+  THEN [e EXCEPT !.comments = [i \in DOMAIN cs |-> [type |-> cs[i].type, match |-> cs[i].match, future |-> (cs[i].when = "future")]]]
+  ELSE e
+EntryWith(c, pri, targeted) == EntryWithSeq(CmtSeq(c, pri), targeted)
+
+ImplChecksWith(c, pri, targeted) == GetChecksForEntry(Load(cfg), EntryWith(c, pri, targeted), "lint")
 Key(pr) == <<pr.str, pr.rep>>
 
-\* C07 at model level: on the targeted rule(s) exactly the suppressed instances disappear, elsewhere nothing changes
+\* C07 at model level: on the targeted rule(s) exactly the suppressed instances disappear (an expired snooze in front
+\* changes nothing), elsewhere nothing changes
 Inv_C07 ==
   phase = "eval" =>
-    /\ {Key(pr) : pr \in Range(ImplChecksWith(cmt, TRUE))} = {Key(pr) : pr \in {q \in Instances : ~DocSuppresses(cmt, q)}}
-    /\ (cmt.scope = "rule" => Strs(ImplChecksWith(cmt, FALSE)) = Strs(GetChecksForEntry(Load(cfg), PlainEntry("rule", "noop"), "lint")))
+    /\ {Key(pr) : pr \in Range(ImplChecksWith(cmt, prior, TRUE))} = {Key(pr) : pr \in {q \in insts : ~DocSuppresses(cmt, q)}}
+    /\ (prior = "expired" => {Key(pr) : pr \in Range(GetChecksForEntry(Load(cfg), EntryWithSeq(<<PriorCmt(cmt)>>, TRUE), "lint"))}
+                                = {Key(pr) : pr \in insts})
+    /\ (cmt.scope = "rule" => Strs(ImplChecksWith(cmt, prior, FALSE)) = Strs(GetChecksForEntry(Load(cfg), PlainEntry("rule", "noop"), "lint")))
 
 \* line arithmetic of the relational predicate: a comment on its own line moves everything from that line on
 Inserted(p) == p.at \in {"above", "between", "top"}
 ShiftLine(x, p) == IF Inserted(p) /\ x >= p.line THEN x + 1 ELSE x
+\* where the expired snooze sits: directly above the rule / on the first line of the file
+PriorPlace(c, r, pri) ==
+  IF pri # "expired" THEN NoPlace
+  ELSE IF c.scope = "file" THEN [at |-> "top", line |-> 1] ELSE [at |-> "above", line |-> FileRules[r].first]
+\* where the new comment goes in the numbering of the file that already holds the expired snooze: always after it
+\* ("above" = directly above the rule and below the expired snooze; "top" = second line)
+EffPlace(p, pp) ==
+  IF pp.at = "none" THEN p
+  ELSE IF p.at \in {"above", "top"} THEN [p EXCEPT !.line = pp.line + 1]
+  ELSE [p EXCEPT !.line = ShiftLine(p.line, pp)]
 
-\* instance table for JUDGE: String() -> [rep, prom, tags, locked, kind]
+\* instance table for JUDGE: String() -> instance
 InstanceTable(c) ==
-  LET ins == Range(GetChecksForEntry(Load(c), PlainEntry("rule", "noop"), "lint")) IN
-  [s \in {pr.str : pr \in ins} |-> CHOOSE pr \in ins : pr.str = s]
+  LET ins == InstancesOf(c) IN [s \in {pr.str : pr \in ins} |-> CHOOSE pr \in ins : pr.str = s]
 
 \* MC: the placement does not enter the model-level property
-MCView == <<phase, cfg, layout, rule, cmt, target>>
+MCView == <<phase, cfg, layout, rule, cmt, prior, target>>
 
 \* scenarios, for the base probe of the harness
-EmitScen == phase # "comment" \/ PrintT(<<"SCEN", ToJson([cfg |-> cfg, layout |-> layout, nproms |-> Len(cfg.proms)])>>)
+EmitScen == phase # "comment" \/ PrintT(<<"SCEN", ToJson([cfg |-> cfg, layout |-> layout, nproms |-> Len(cfg.proms), eol |-> eol])>>)
 
-CaseRec == [cfg |-> cfg, layout |-> layout, nproms |-> Len(cfg.proms), rule |-> rule, cmt |-> cmt, text |-> CommentText(cmt),
-            place |-> place, target |-> target]
+CaseRec ==
+  LET pp == PriorPlace(cmt, rule, prior) IN
+  [cfg |-> cfg, layout |-> layout, nproms |-> Len(cfg.proms), eol |-> eol, rule |-> rule, cmt |-> cmt, text |-> CommentText(cmt),
+   prior |-> prior, priortext |-> IF prior = "expired" THEN CommentText(PriorCmt(cmt)) ELSE "", pplace |-> pp,
+   place |-> place, eplace |-> EffPlace(place, pp), target |-> target]
 EmitCase == phase # "eval" \/ PrintT(<<"CASE", ToJson(CaseRec)>>)
 =============================================================================
